@@ -38,7 +38,7 @@ func genC08(rt *rapid.T) C08Case {
 		c.Outcome = []string{"ok", "rb-notfound", "rb-forbidden", "rb-of-rollback"}[rapid.IntRange(0, 3).Draw(rt, "rboutcome")]
 	} else {
 		c.Sync = rapid.IntRange(0, 1).Draw(rt, "sync") == 1
-		c.Outcome = []string{"ok", "ok", "invalid", "refuse"}[rapid.IntRange(0, 3).Draw(rt, "outcome")]
+		c.Outcome = []string{"ok", "ok", "invalid", "refuse", "ok", "ok", "invalid", "refuse", "unrenderable"}[rapid.IntRange(0, 8).Draw(rt, "outcome")]
 		c.Multi = rapid.IntRange(0, 2).Draw(rt, "multi") == 0
 		if c.Outcome == "refuse" {
 			c.Code = []int{2, 3, 5, 6, 9, 12, 13, 16}[rapid.IntRange(0, 7).Draw(rt, "code")]
@@ -126,6 +126,12 @@ func runC08(c C08Case, x *vstat.Ctx) error {
 			val = model.Str(fmt.Sprintf("%s%d", fakes.RefusePrefix, c.Code))
 		}
 		spec = SetSpec{Sync: c.Sync, Ops: []model.Op{{Kind: "update", Target: "t1", Path: model.Parse("/a/c/d"), Val: &val}, {Kind: "delete", Target: "t1", Path: model.Parse("/a/bc")}}}
+		if c.Outcome == "unrenderable" {
+			// a value the handlers accept and store but that no JSON document can hold: the configuration cannot
+			// be shown to the model, the change must be reported failed (and answered), not retried for ever
+			inf := model.Value{T: "lfinf"}
+			spec.Ops = append(spec.Ops, model.Op{Kind: "update", Target: "t1", Path: model.Parse("/types/float"), Val: &inf})
+		}
 		if c.Outcome == "invalid" {
 			bad := model.Str("bad")
 			spec.Ops = append(spec.Ops, model.Op{Kind: "update", Target: "t1", Path: model.Parse("/poison"), Val: &bad})
